@@ -65,6 +65,7 @@ def structures(tier, seed):
         out.append({"sid": "lean;finite-sum-facts", "part": "lean"})
     # [bounded] the real kernel + wrapper on concrete columns against the statement's formula evaluated with numpy: a stand-in that
     # still decides when the generic-iteration rule is not applicable to a restructured kernel (its side condition then fails)
+    out.append({"sid": "rnd:native-dask[bounded]", "part": "native-dask", "methods": ['conservative'], "n": 24 if tier == "thorough" else 8, "seed": int(seed)})
     out.append({"sid": "rnd:native-columns[bounded]", "part": "native-columns", "n": 400 if tier == "thorough" else 120, "seed": int(seed)})
     return out
 
@@ -537,7 +538,7 @@ def run_xarray(s):
 
 
 def run_structure(s):
-    return {"kernel": run_kernel, "lemmas": run_lemmas, "wrapper": run_wrapper, "xarray": run_xarray, "lean": run_lean, "native-columns": run_native_columns}[s["part"]](s)
+    return {"kernel": run_kernel, "lemmas": run_lemmas, "wrapper": run_wrapper, "xarray": run_xarray, "lean": run_lean, "native-columns": run_native_columns, "native-dask": (lambda s_: __import__("harness.native_transform", fromlist=["run"]).run(s_, 'transform.transform[conservative; bounded, real dask]'))}[s["part"]](s)
 
 
 REQUIRED_COVERS = ["store", "no-store", "lemmas", "returned", "raised"]
@@ -553,6 +554,8 @@ def replay(ob):
     wit = ob.get("witness") or {}
     import xgcm.transform as T
     part = wit.get("part")
+    if part == "native-dask":
+        return {"confirmed": True, "text": "real xarray + real dask:\n" + wit.get("text", "")}
     if part == "native-columns":
         return {"confirmed": True, "text": "real kernel on a concrete column:\n" + wit.get("text", "")}
     if part == "kernel":
